@@ -325,7 +325,7 @@ func (s *Sys) Exec(toks []string) string {
 		if !strings.HasPrefix(res, "err") && !strings.HasPrefix(res, "panic") {
 			s.pending = append(s.pending, toks)
 		}
-	case "save", "wsave", "ctab", "rollback", "reopen", "reopenat", "load", "lvfo", "savecs":
+	case "save", "wsave", "ctab", "rollback", "reopen", "reopenat", "load", "lvfo", "wlvfo", "savecs":
 		if !strings.HasPrefix(res, "err") {
 			s.pending = nil
 		}
@@ -521,6 +521,45 @@ func (s *Sys) exec1(toks []string) string {
 			return fmt.Sprintf("wp(%s;ops=%s;fl=%s)", errStr(err), strings.Join(ops, ","), strings.Join(fl, ","))
 		case "lvfo":
 			return errStr(t.LoadVersionForOverwriting(atoi(toks[1])))
+		case "wlvfo":
+			// a rollback whose physical writes are recorded, in order: node deletions/sets, fast
+			// index deletions/sets (values without the entry version) and label writes
+			if s.hooks == nil {
+				return "wl-nowrap(" + errStr(t.LoadVersionForOverwriting(atoi(toks[1]))) + ")"
+			}
+			s.hooks.writes = nil
+			s.hooks.record = true
+			err := t.LoadVersionForOverwriting(atoi(toks[1]))
+			s.hooks.record = false
+			var ops []string
+			for _, w := range s.hooks.writes {
+				for _, o := range w {
+					switch {
+					case len(o.k) == 13 && o.k[0] == 's':
+						c := "s"
+						if o.del {
+							c = "d"
+						}
+						ops = append(ops, fmt.Sprintf("%s%d.%d", c, int64(binary.BigEndian.Uint64(o.k[1:9])), binary.BigEndian.Uint32(o.k[9:13])))
+					case len(o.k) > 0 && o.k[0] == 'f':
+						if o.del {
+							ops = append(ops, "fd:"+hex.EncodeToString(o.k[1:]))
+						} else {
+							val := "BAD"
+							if _, n, e := rdVarint(o.v); e == nil {
+								if v, _, e2 := rdBytes(o.v[n:]); e2 == nil {
+									val = hex.EncodeToString(v)
+								}
+							}
+							ops = append(ops, "fs:"+hex.EncodeToString(o.k[1:])+"="+val)
+						}
+					case len(o.k) > 0 && o.k[0] == 'm':
+						ops = append(ops, "L:"+string(o.v))
+					}
+				}
+			}
+			s.hooks.writes = nil
+			return fmt.Sprintf("wl(%s;ops=%s)", errStr(err), strings.Join(ops, ","))
 		case "r":
 			if toks[1] == "w" {
 				return s.execRead(nil, toks[2:])
